@@ -56,6 +56,9 @@ type Call struct {
 	// Data is merged into the request's data map (pool) / added to the data context (engine).
 	// With "Req"/"Resp" keys the two-object form of ExecuteRulesWithSpecifiedEM is used.
 	Data map[string]interface{} `json:"-"`
+	// NilStag: the stop-tag entry points get a nil *Stag (API misuse that panics in the caller's
+	// goroutine; used by C17: the instance must be handed back on that path too).
+	NilStag bool `json:"nil_stag,omitempty"`
 	// DupNames: the name list contains a duplicate; only "no unselected rule runs" is decided.
 	DupNames bool `json:"dup_names,omitempty"`
 }
@@ -180,6 +183,9 @@ func (t *Target) Invoke(c Call, lg *Log) (out Outcome) {
 	stag := &engine.Stag{}
 	out.Stag = stag
 	out.lg = lg
+	if c.NilStag {
+		stag = nil
+	}
 	defer func() {
 		if p := recover(); p != nil {
 			out.Panic = p
